@@ -98,10 +98,15 @@ theorem VoteSet.addVote_MS (c : Cfg) (E : Bid → Nat → Bool) (vs : VoteSet) (
     · exact hm
     · split
       · exact hm
-      · rename_i hs
-        have hlt : v.val < c.n := by omega
-        have hsig : v.sigOK = true := by simpa using hs
-        exact VoteSet.addVerified_MS c E vs _ _ hlt (hv hlt hsig) hm
+      · split
+        · exact hm
+        · rename_i hs
+          have hlt : v.val < c.n := by omega
+          have hsig : v.sigOK = true := by
+            cases h : v.sigOK
+            · simp [h] at hs
+            · rfl
+          exact VoteSet.addVerified_MS c E vs _ _ hlt (hv hlt hsig) hm
 
 theorem VoteSet.setPeerMaj23_MS (c : Cfg) (E) (vs : VoteSet) (peer : Peer) (key : Bid) (hm : MSv c E vs) :
     MSv c E (vs.setPeerMaj23 peer key) := by
